@@ -107,6 +107,16 @@ func randomChain(rng *rand.Rand, v6 bool) []PlugConf {
 	for _, k := range perm[:n] {
 		chain = append(chain, PlugConf{pool[k], validArgs(rng, pool[k], v6)})
 	}
+	if rng.Intn(4) == 0 {
+		// a plugin that has no setup function for this protocol: legal, skipped by the loader
+		other := []string{"router", "netmask", "mtu", "lease_time", "staticroute", "ipv6only", "autoconfigure"}
+		if !v6 {
+			other = []string{"prefix"}
+		}
+		name := other[rng.Intn(len(other))]
+		at := rng.Intn(len(chain) + 1)
+		chain = append(chain[:at], append([]PlugConf{{name, validArgs(rng, name, !v6)}}, chain[at:]...)...)
+	}
 	return chain
 }
 
